@@ -463,6 +463,14 @@ var (
 	OnPassPanic func(msg string)
 )
 
+// PendingPanic returns the first panic of a background goroutine in pass-through mode
+// without clearing it ("" if there is none or it has been taken).
+func PendingPanic() string {
+	passMu.Lock()
+	defer passMu.Unlock()
+	return passPanic
+}
+
 // TakePanic returns (and clears) the first panic of a background goroutine in
 // pass-through mode. The state it ran on may hold a lock forever: do not reuse it.
 func TakePanic() string {
